@@ -31,7 +31,7 @@ def run(ctx):
     calls = []
     for rx in order:
         cs = gm.calls_to("clap_builder::parser::(parser|validator)::" + rx)
-        res.floor("R6.1", "call to %s in get_matches_with" % rx, len(cs), 1)
+        require(fx, res, "R6.1", "phase-missing|" + rx.split("::")[-1].rstrip("$"), gm, "clap_builder::parser::(parser|validator)::" + rx, len(cs), 1, "get_matches_with no longer runs the phase %s" % rx.rstrip("$"))
         if cs:
             calls.append(cs[0])
     for a, b in zip(calls, calls[1:]):
